@@ -274,7 +274,8 @@ pub fn run_sys(ctl: &mut Ctl, filter: &dyn Fn(&str, &str, &str) -> bool, residue
                 let first = ctl.out.len();
                 let nb = steps_of(ctl, &s, 1, b);
                 ctl.out.truncate(first);
-                for k in 1..nb {
+                // (k = 0: B has run up to its first scheduling point - it may already have loaded a count word)
+                for k in 0..nb {
                     if let Some(r) = residue {
                         ctl.advance_to_residue(r);
                     }
